@@ -36,6 +36,18 @@ EXCLUDED = {
 _CHAIN = {}
 
 
+class _Materialised(Exception):
+    def __init__(self, chain):
+        self.chain = chain
+
+
+class _ChainInterp(Interp):
+    """stops as soon as the abstract input has to be materialised: only the normalisation chain is wanted"""
+
+    def _materialise_primary(self, a):
+        raise _Materialised(a.chain)
+
+
 def chain_of(pyfunc, kwargs=None):
     """normalisation chain of a compact-like function applied to the raw input, or None when it is not a pure chain
     (prefix removal, padding ...).  -> (Chain or None, pure: bool)"""
@@ -45,7 +57,7 @@ def chain_of(pyfunc, kwargs=None):
     fn = front.func_of(pyfunc, Func)
     ctx = Ctx((), 5)
     ctx.long_bound = 40
-    I = Interp(ctx)
+    I = _ChainInterp(ctx)
     res = (None, False)
     try:
         v = I.call(fn, [raw_input()], dict(kwargs or {}), {}, fn.module)
@@ -53,6 +65,8 @@ def chain_of(pyfunc, kwargs=None):
             res = (v.chain, True)
         elif ctx.primary_params is not None:
             res = (ctx.primary_params, False)      # a chain followed by further processing
+    except _Materialised as m_:
+        res = (m_.chain, False)           # a chain followed by further processing
     except (Unsupported, Raise, Restart, Infeasible, Exception):     # noqa: B902
         res = (None, False)
     _CHAIN[key] = res
